@@ -145,7 +145,26 @@ def scopes_worker(job):
 DOCS = {
     'd1': '<r><a v="1">t<b/></a><a v="2"/><b>u</b></r>',
     'd2': '<r xmlns:p="urn:p"><b/><a v="9"><a v="8"/></a><p:a v="7"/></r>',
+    'd4': '<p:root xmlns:p="urn:p"><a v="5"><b/>w</a><p:a v="6"/></p:root>',
 }
+
+
+def typed_vars(k: int) -> dict:
+    """One value per atomic type and context (k = 0, 1, 2): arguments of the signature family."""
+    from decimal import Decimal
+    from elementpath import datatypes as dt
+    return {
+        # s3: also three valid regex flags; case chosen so that a literal pattern 'b' matches or not depending on the flags
+        's': ('ABC ABC', 'abcabc', 'a-B-c')[k], 's2': ('b', 'B', 'c')[k], 's3': ('x', 'i', 'm')[k],
+        'i': (2, 3, 1)[k], 'n': (1.5, -2.5, 1e10)[k], 'dec': Decimal(('2.5', '-0.5', '10')[k]), 'b': (True, False, True)[k],
+        'dt': dt.DateTime10.fromstring(('2000-01-01T10:00:00Z', '1999-12-31T23:30:00+05:00', '2024-02-29T12:00:00')[k]),
+        'date': dt.Date10.fromstring(('2000-01-31', '2004-02-29Z', '1999-12-31')[k]),
+        'time': dt.Time.fromstring(('10:00:00', '23:59:59.5Z', '00:00:00')[k]),
+        'dur': dt.Duration.fromstring(('P1DT2H', '-P2D', 'P1Y')[k]),
+        'dtd': dt.DayTimeDuration.fromstring(('PT1H', '-PT90M', 'P1D')[k]),
+        'ymd': dt.YearMonthDuration.fromstring(('P1Y2M', '-P3M', 'P10Y')[k]),
+        'q': dt.QName(('urn:p', '', 'urn:p')[k], ('p:a', 'b', 'p:c')[k]), 'u': dt.AnyURI(('http://x/a b', 'urn:x', 'a/../b')[k]),
+    }
 
 
 def make_context(label: str):
@@ -153,16 +172,21 @@ def make_context(label: str):
     from elementpath.datatypes import DateTime10
     if label == 'c1':
         root = ET.ElementTree(ET.fromstring(DOCS['d1']))
-        return dict(root=root, variables={'x': 10, 'y': 20, 'd': DateTime10.fromstring('2000-01-01T00:00:00')},
+        return dict(root=root, variables=dict({'x': 10, 'y': 20, 'd': DateTime10.fromstring('2000-01-01T00:00:00')}, **typed_vars(0)),
                     timezone=None, namespaces={'p': 'urn:p'})
     if label == 'c2':
         root = ET.ElementTree(ET.fromstring(DOCS['d2']))
-        return dict(root=root, variables={'x': 1, 'y': 2, 'd': DateTime10.fromstring('2000-01-01T00:00:00')},
+        return dict(root=root, variables=dict({'x': 1, 'y': 2, 'd': DateTime10.fromstring('2000-01-01T00:00:00')}, **typed_vars(1)),
                     timezone='+05:00', namespaces={'p': 'urn:p'})
     if label == 'c3':
         root = ET.fromstring(DOCS['d1'])   # Element root, other variables, negative timezone
-        return dict(root=root, variables={'x': 7, 'y': 3, 'd': DateTime10.fromstring('1999-12-31T23:00:00')},
+        return dict(root=root, variables=dict({'x': 7, 'y': 3, 'd': DateTime10.fromstring('1999-12-31T23:00:00')}, **typed_vars(2)),
                     timezone='-03:00', namespaces={'p': 'urn:p'})
+    if label == 'c4':
+        # a second Element root whose root element has another (prefixed) name: state derived from the root of an earlier tree
+        root = ET.fromstring(DOCS['d4'])
+        return dict(root=root, variables=dict({'x': 4, 'y': 5, 'd': DateTime10.fromstring('2000-01-01T00:00:00')}, **typed_vars(1)),
+                    timezone=None, namespaces={'p': 'urn:p'})
     raise ValueError(label)
 
 
@@ -214,6 +238,189 @@ def generated_templates():
     return out
 
 
+# ---------------------------------------------------------------------------------------------
+# Signature family: every function of the live signature table called with context-dependent arguments.
+# A value computed in one evaluation and kept on the token (compiled pattern, translation table, parser, precision,
+# collation...) shows up when the same parsed call is evaluated again with other argument values.
+
+VAR_OF = {  # parameter item type -> (context-dependent expression, literal A, literal B)
+    'xs:string': None,   # by order of appearance: $s, $s2, $s3
+    'xs:string*': ('($s, $s2)', "('a', 'b')", "('c', 'a', 'c')"),
+    'item()*': ('($x, $s, //a/@v)', "(1, 'a')", "('b', 2, 3)"), 'item()': ('$x', '1', "'b'"),
+    'array(*)': ('[$x, $s, $i]', "[1, 'a']", "['b', 2, 3]"), 'map(*)': ('map{"k": $x, "s": $s, $i: $b}', "map{'k': 1}", "map{'k': 2, 'j': 'a'}"),
+    'map(*)*': ('(map{"k": $x}, map{"k": $y, "j": $s})', "map{'k': 1}", "(map{'k': 2}, map{'k': 3, 'j': 'a'})"),
+    'xs:anyAtomicType*': ('($x, $i, $n)', "(1, 2)", "(3, 1, 2)"), 'xs:anyAtomicType': ('$x', '1', "'b'"),
+    'node()': ('(//a)[1]', '/*', '(//*)[last()]'), 'node()*': ('//a', '/*', '//*'), 'element()': ('(//a)[1]', '/*', '(//*)[last()]'),
+    'xs:dateTime': ('$dt', "xs:dateTime('2000-01-01T00:00:00')", "xs:dateTime('1999-12-31T23:59:59.5+02:00')"),
+    'xs:date': ('$date', "xs:date('2000-01-01')", "xs:date('2004-02-29-05:00')"),
+    'xs:time': ('$time', "xs:time('12:00:00')", "xs:time('23:59:59.5Z')"),
+    'xs:double': ('$n', '1.5e0', '-2.5e0'), 'xs:numeric': ('$n', '1.5', '-3'), 'xs:integer': ('$i', '2', '3'),
+    'xs:integer*': ('($i, $x)', '(1, 2)', '(3, 1)'),
+    'xs:duration': ('$dur', "xs:duration('P1D')", "xs:duration('-P1Y2M')"),
+    'xs:dayTimeDuration': ('$dtd', "xs:dayTimeDuration('PT1H')", "xs:dayTimeDuration('-PT90M')"),
+    'xs:QName': ('$q', "xs:QName('p:a')", "xs:QName('b')"),
+}
+STRING_VARS = [('$s', "'ABC ABC'", "'abcabc'"), ('$s2', "'b'", "'B'"), ('$s3', "'x'", "'i'")]
+COLLATIONS = ["'http://www.w3.org/2005/xpath-functions/collation/codepoint'",
+              "'http://www.w3.org/2005/xpath-functions/collation/html-ascii-case-insensitive'"]
+NONDETERMINISTIC = {'fn:current-dateTime', 'fn:current-date', 'fn:current-time', 'fn:random-number-generator', 'fn:generate-id',
+                    'fn:trace', 'fn:error'}
+
+
+def _split_sig(sig: str) -> list[str]:
+    depth, cur, parts = 0, '', []
+    for c in sig[len('function('):]:
+        if c == '(':
+            depth += 1
+        elif c == ')':
+            if depth == 0:
+                break
+            depth -= 1
+        if c == ',' and depth == 0:
+            parts.append(cur.strip())
+            cur = ''
+        else:
+            cur += c
+    if cur.strip():
+        parts.append(cur.strip())
+    return parts
+
+
+def _arg_triple(ptype: str, n_str: int):
+    """(context-dependent expression, literal A, literal B) for one declared parameter type."""
+    base = ptype
+    if base == '...':
+        base = 'xs:anyAtomicType'
+    if base.startswith('function('):
+        if base == 'function(*)':
+            nparams, ret = 1, 'item()*'
+        else:
+            nparams = len(_split_sig(base))
+            ret = base.rsplit(' as ', 1)[1] if ' as ' in base else 'item()*'
+        ps = ', '.join(f'$p{i}' for i in range(nparams))
+        first = '$p0' if nparams else '1'
+        if ret.startswith('xs:boolean'):
+            bodies = (f'string({first}[1]) = string($x)', f"string({first}[1]) = 'a'", f"string({first}[1]) != '1'")
+        elif ret.startswith('xs:anyAtomicType'):
+            bodies = (f'(string({first}[1]), $x)', f'string({first}[1])', f"concat(string({first}[1]), 'z')")
+        else:
+            bodies = (f'({first}, $x)', f'{first}', f"({first}, 'z')")
+        return tuple(f'function({ps}) {{ {b} }}' for b in bodies)
+    if base.startswith('element('):
+        return ('()', '()', '()')
+    if base not in VAR_OF and base[-1] in '?' and not base.endswith(')?'):
+        base = base[:-1]
+    elif base not in VAR_OF and base.endswith(')?'):
+        base = base[:-1]
+    if base == 'xs:string':
+        return STRING_VARS[min(n_str, 2)]
+    if base in VAR_OF and VAR_OF[base]:
+        return VAR_OF[base]
+    return ('$x', '1', "'b'")
+
+
+def signature_templates() -> tuple[list, list]:
+    """(history expressions, for-batch pairs) from the live XPath31Parser.function_signatures of the working tree."""
+    from elementpath.xpath31 import XPath31Parser
+    hist, batch = [], []
+    for (qname, arity), sig in sorted(XPath31Parser.function_signatures.items(), key=lambda kv: (kv[0][0].qname, kv[0][1])):
+        name = qname.qname
+        if name in NONDETERMINISTIC:
+            continue
+        ptypes = _split_sig(sig)
+        if len(ptypes) != arity:
+            ptypes = (ptypes + ['xs:anyAtomicType'] * arity)[:arity]
+        triples, n_str = [], 0
+        for t in ptypes:
+            triples.append(_arg_triple(t, n_str))
+            if t.rstrip('?') == 'xs:string':
+                n_str += 1
+        call = lambda args: f'{name}({", ".join(args)})'       # noqa: E731
+        hist.append(call([t[0] for t in triples]))
+        for j in range(arity):
+            if triples[j][0] != triples[j][1]:
+                hist.append(call([t[1] if i == j else t[0] for i, t in enumerate(triples)]))
+        if arity >= 2 and ptypes[-1].rstrip('?') == 'xs:string':
+            for coll in COLLATIONS:
+                hist.append(call([t[0] for t in triples[:-1]] + [coll]))
+        if arity:
+            vary_sets = [set(range(arity))] + [{j} for j in range(arity)] if arity > 1 else [{0}]
+            for vs in vary_sets:
+                if all(triples[j][1] == triples[j][2] for j in vs):
+                    continue
+                loop = call([f'(if ($k = 1) then {t[1]} else {t[2]})' if i in vs else t[1] for i, t in enumerate(triples)])
+                flat = {k: call([(t[1] if k == 1 else t[2]) if i in vs else t[1] for i, t in enumerate(triples)]) for k in (1, 2)}
+                batch.append((f'for $k in (1, 2, 1) return {loop}', f'({flat[1]}, {flat[2]}, {flat[1]})'))
+    return sorted(set(hist)), sorted(set(batch))
+
+
+SIG_HISTORIES = [('c1', 'c2', 'c1'), ('c2', 'c1', 'c3'), ('c3', 'c4', 'c3'), ('c4', 'c3', 'c1'), ('c1', 'c1', 'c2')]
+
+
+def sig_worker(job):
+    """job: list of ('hist', expr) / ('batch', loop, flat).  Oracle = fresh parse on a fresh context (the property's words)."""
+    import elementpath
+    fails, n, skipped = [], 0, 0
+    for item in job:
+        for version, P in parsers().items():
+            if item[0] == 'batch':
+                _, loop, flat = item
+                ctx = make_context('c1')
+                kw = lambda c: dict(parser=P, variables=c['variables'], timezone=c['timezone'], namespaces=c['namespaces'])   # noqa: E731
+                a = outcome(lambda: proj_result(elementpath.select(ctx['root'], loop, **kw(ctx))))
+                ctx2 = make_context('c1')
+                b = outcome(lambda: proj_result(elementpath.select(ctx2['root'], flat, **kw(ctx2))))
+                n += 2
+                if a != b and not (a[:1] == ('err',) and a[1] in ('XPST0017', 'XPST0003', 'XPST0081')):
+                    if b[:1] == ('err',) and b[1] in ('XPST0017', 'XPST0003', 'XPST0081'):
+                        skipped += 1
+                        continue
+                    fails.append((dict(part='forbatch', outcome='loop_differs_from_expansion', function=loop.split('return ', 1)[1].split('(', 1)[0],
+                                       parser=version), dict(part='forbatch', loop=loop, flat=flat, parser=version), b, a))
+                continue
+            expr = item[1]
+            try:
+                tok = P(namespaces={'p': 'urn:p'}).parse(expr)
+            except Exception:
+                skipped += 1
+                continue
+            fresh = {}
+            for c in ('c1', 'c2', 'c3', 'c4'):
+                two = []
+                for _ in range(2):
+                    ctx = make_context(c)
+                    two.append(outcome(lambda: proj_result(elementpath.select(
+                        ctx['root'], expr, parser=P, variables=ctx['variables'], timezone=ctx['timezone'], namespaces=ctx['namespaces']))))
+                    n += 1
+                fresh[c] = two[0] if two[0] == two[1] else None      # None: not a function of the context (skipped)
+            if any(v is None for v in fresh.values()):
+                skipped += 1
+                continue
+            for mode in ('selector', 'token'):
+                for hist in SIG_HISTORIES:
+                    obj = elementpath.Selector(expr, namespaces={'p': 'urn:p'}, parser=P) if mode == 'selector' else \
+                        P(namespaces={'p': 'urn:p'}).parse(expr)
+                    ctxs = {c: make_context(c) for c in set(hist)}
+                    snaps = {c: snapshot(ctxs[c]) for c in ctxs}
+                    for i, c in enumerate(hist):
+                        obs = outcome(lambda: proj_result(eval_in(obj, mode, ctxs[c])))
+                        n += 1
+                        feat = None
+                        if obs != fresh[c]:
+                            feat = dict(part='sighistory', outcome='differs_from_fresh', mode=mode, step=i + 1, function=expr.split('(', 1)[0],
+                                        parser=version)
+                            exp = fresh[c]
+                        elif any(snapshot(ctxs[c2]) != snaps[c2] for c2 in ctxs):
+                            c2 = next(c2 for c2 in ctxs if snapshot(ctxs[c2]) != snaps[c2])
+                            feat = dict(part='sigpurity', outcome='caller_input_modified', mode=mode, step=i + 1, function=expr.split('(', 1)[0],
+                                        parser=version)
+                            exp, obs = snaps[c2], snapshot(ctxs[c2])
+                        if feat:
+                            fails.append((feat, dict(part='sighistory', expr=expr, parser=version, mode=mode, hist=list(hist)), exp, obs))
+                            break
+    return n, fails, skipped
+
+
 def proj_result(res):
     """Comparable, context-independent projection of an API result."""
     if not isinstance(res, list):
@@ -256,7 +463,7 @@ def history_worker(job):
     for (expr, version, histories) in job:
         P = parsers()[version]
         fresh = {}
-        for c in ('c1', 'c2', 'c3'):
+        for c in sorted({c for h in histories for c in h}):
             ctx = make_context(c)
             fresh[c] = outcome(lambda: proj_result(elementpath.select(
                 ctx['root'], expr, parser=P, variables=ctx['variables'], timezone=ctx['timezone'],
@@ -302,6 +509,13 @@ def replay(rec: dict) -> int:
                                                                parser=parsers()[case['parser']])))
         print('expr', case['expr'], '\nexpected', rec['expected'], '\nobserved', obs)
         return 0 if obs == rec['expected'] else 1
+    if case['part'] in ('sighistory', 'forbatch'):
+        item = ('hist', case['expr']) if case['part'] == 'sighistory' else ('batch', case['loop'], case['flat'])
+        n, fails, _ = sig_worker([item])
+        fails = [f for f in fails if f[0]['parser'] == case['parser']]
+        for f in fails:
+            print(f[0], '\nexpected', f[2], '\nobserved', f[3])
+        return 1 if fails else 0
     n, fails = history_worker([(case['expr'], case['parser'], [tuple(case['hist'])])])
     for f in fails:
         print(f[0], '\nexpected', f[2], '\nobserved', f[3])
@@ -343,12 +557,16 @@ def run(chk: core.Check) -> None:
     wd = os.path.join(chk.scratch, 'hist')
     dot = os.path.join(wd, 'g.dot')
     maxlen = 3 if chk.tier == 'quick' else 4
-    cfg = tla.cfg_text(dict(Contexts={'c1', 'c2', 'c3'}, MaxLen=maxlen), invariants=['OutputIsFresh', 'Pure'],
+    cfg = tla.cfg_text(dict(Contexts={'c1', 'c2', 'c3', 'c4'}, MaxLen=maxlen), invariants=['OutputIsFresh', 'Pure'],
                        properties=['InputsNeverChange'])
     r2 = tla.require_ok(tla.run_tlc('SelectorHistory', cfg, wd, dump_dot=dot, workers=2), 'SelectorHistory', min_distinct=10)
     chk.model(f'SelectorHistory/len{maxlen}', r2)
     g2 = tla.load_dot(dot)
-    hists = sorted({tuple(st['hist']) for st in g2.states.values() if len(st['hist']) == maxlen})
+    all_hists = sorted({tuple(st['hist']) for st in g2.states.values() if len(st['hist']) == maxlen})
+    if any(h not in all_hists for h in SIG_HISTORIES if len(h) == maxlen):
+        raise tla.MachineryError('SIG_HISTORIES are not behaviours of SelectorHistory')
+    # quick: every history over c1..c3 plus the ones that alternate between the two Element roots c3 / c4
+    hists = [h for h in all_hists if 'c4' not in h or (chk.tier != 'quick') or set(h) <= {'c3', 'c4'}]
     chk.add('transitions', len(g2.edges))
     rnd = random.Random(chk.seed)
     binder_progs = [p for p in progs if p[2] != 'seed']
@@ -377,6 +595,22 @@ def run(chk: core.Check) -> None:
         for feat, case, exp, obs in fails:
             chk.fail(feat, case, exp, obs, what=f'{case["expr"]} history {case["hist"]} ({case["mode"]})')
     chk.add('traces_validated_against_impl', len(jobs) * len(hists) * 3)
+    # (3) signature family
+    sig_hist, sig_batch = signature_templates()
+    items = [('hist', e) for e in sig_hist] + [('batch', a, b) for a, b in sig_batch]
+    rnd.shuffle(items)
+    res = core.pool_map(sig_worker, core.chunked(items, 64))
+    n_sig = skipped = 0
+    for n, fails, sk in res:
+        chk.add('evaluations', n)
+        n_sig += n
+        skipped += sk
+        for feat, case, exp, obs in fails:
+            chk.fail(feat, case, exp, obs, what=str(case.get('expr') or case.get('loop')))
+    chk.add('traces_validated_against_impl', len(items) * 3)
+    chk.coverage['signature_family'] = dict(history_expressions=len(sig_hist), for_batch_pairs=len(sig_batch), histories=len(SIG_HISTORIES),
+                                            evaluations=n_sig, skipped_unparsable_or_nondeterministic=skipped)
+    print(f'  signature family: calls={len(sig_hist)} batches={len(sig_batch)} evaluations={n_sig} skipped={skipped}', flush=True)
     chk.sample(dict(history=list(hists[len(hists) // 2]), expression=pool[16][1], modes=['selector', 'selector_iter', 'token']))
     chk.coverage['history_pool'] = dict(expressions=len(pool), histories=len(hists), contexts=3)
     chk.coverage['exhaustive'] = True
